@@ -74,6 +74,28 @@ func main() {
 		if i := strings.Index(key, "\n"); i > 0 {
 			key = key[:i]
 		}
+		if key == "clean" && len(cp.Conflicts) == 0 {
+			if i == 0 {
+				for _, m := range g.S.Mods {
+					if tr := cp.Trees[m.Name]; tr != nil {
+						for _, l := range model.Canon(tr, model.CanonOpts{}) {
+							fmt.Println("REF", l)
+						}
+					}
+				}
+			}
+			if d := props.RefCompare(res.MS, g.S, cp); d != "" {
+				lines := strings.Split(d, "\n")
+				key = "REFDIFF " + lines[1]
+				if re != nil && re.MatchString(key) {
+					for _, k := range names {
+						fmt.Printf("---- %s\n%s", k, texts[k])
+					}
+					fmt.Println(d)
+					return
+				}
+			}
+		}
 		short := num.ReplaceAllString(key, "N")
 		if len(short) > 210 {
 			short = short[:210]
